@@ -36,18 +36,18 @@ VERIF_REPO="$WT" timeout 1500 ./vcheck "$ID" quick > /var/tmp/seedv-$ID-vcheck.l
 git -C /verif checkout -- evidence 2>/dev/null
 keys=$(grep -A1 '^VIOLATION' /var/tmp/seedv-$ID-vcheck.log | grep 'key:' | sed 's/^ *key: //' | head -4 | tr '\n' ';')
 echo "    rc=$rc $(grep -c '^VIOLATION' /var/tmp/seedv-$ID-vcheck.log) violations: $keys"
-mkdir -p /verif/seeded/$ID
-cp "$SEED/patch.diff" /verif/seeded/$ID/patch.diff
-cp "$SEED/$DEMO" /verif/seeded/$ID/
-[ -f "$SEED/NOTES.md" ] && cp "$SEED/NOTES.md" /verif/seeded/$ID/NOTES.md
-python3 - "$ID" "$DST" "$RUNCMD" "$OWN" "$rc" "$keys" <<'PY'
+OUT=${SEEDNAME:-$ID}; mkdir -p /verif/seeded/$OUT
+cp "$SEED/patch.diff" /verif/seeded/$OUT/patch.diff
+cp "$SEED/$DEMO" /verif/seeded/$OUT/
+[ -f "$SEED/NOTES.md" ] && cp "$SEED/NOTES.md" /verif/seeded/$OUT/NOTES.md
+python3 - "$OUT" "$DST" "$RUNCMD" "$OWN" "$rc" "$keys" <<'PY'
 import json,sys
 id,dst,cmd,own,rc,keys=sys.argv[1:7]
 notes=open(f'/verif/seeded/{id}/NOTES.md').read() if __import__('os').path.exists(f'/verif/seeded/{id}/NOTES.md') else ''
-json.dump({"property":id,"demonstration":{"copy_to":dst,"command":cmd,"passes_without_change":True,"fails_with_change":True},
+json.dump({"property":id.split("-")[0],"demonstration":{"copy_to":dst,"command":cmd,"passes_without_change":True,"fails_with_change":True},
  "repo_own_tests_with_change":own,"vcheck_quick_exit_code":int(rc),"detected":int(rc)==1,
  "violation_keys":[k for k in keys.split(';') if k],
- "what_i_ran":"tools/seedverify.sh: fresh worktree of /repo HEAD; demo on clean tree (pass), git apply patch.diff, demo (fail), go test of touched packages, VERIF_REPO=<worktree> ./vcheck %s quick"%id,
+ "what_i_ran":"tools/seedverify.sh: fresh worktree of /repo HEAD; demo on clean tree (pass), git apply patch.diff, demo (fail), go test of touched packages, VERIF_REPO=<worktree> ./vcheck %s quick"%id.split('-')[0],
  "needs_to_manifest":"see NOTES.md (written by the independent author of the change)"},open(f'/verif/seeded/{id}/meta.json','w'),indent=1)
 PY
 echo "=== $ID detected=$([ $rc = 1 ] && echo yes || echo NO)"
